@@ -12,8 +12,13 @@ imported or called.
 from __future__ import annotations
 
 import ast
+import re as _re_module
+import types as _types
 
 from .core import AnalysisError, text
+
+# standard-library modules the evaluated code may use as they are (pure functions on the model's own values)
+SAFE_MODULES = {'re': _re_module}
 
 
 class _Return(Exception):
@@ -54,7 +59,7 @@ class Evaluator:
     def __init__(self, fn, intrinsics=None, attr_ok=None, model_types=(), module=None, cls=None, _depth=0):
         self.fn = fn
         self.intrinsics = intrinsics or {}
-        self.model_types = tuple(model_types)
+        self.model_types = tuple(model_types) + (_re_module.Pattern, _re_module.Match)
         self.module = module  # core.Module: module-level constants and helper functions are resolved in it
         self.cls = cls  # class name: self.<helper>() and property getters are resolved in it
         self.depth = _depth
@@ -357,6 +362,8 @@ class Evaluator:
                 return {'ord': ord, 'chr': chr, 'str': str, 'int': int, 'len': len}[e.id]
             import builtins
 
+            if e.id in SAFE_MODULES:
+                return SAFE_MODULES[e.id]
             if isinstance(getattr(builtins, e.id, None), type) and issubclass(getattr(builtins, e.id), BaseException):
                 return e.id  # exception classes are modelled by their names
             b = self._module_binding(e.id)
@@ -507,6 +514,8 @@ class Evaluator:
                     return lambda *a, **k: self.call_function(mem, a, k)
                 raise AnalysisError(f'class attribute {text(e)} not found')
             v = self.expr(e.value, env)
+            if isinstance(v, _types.ModuleType) and v in SAFE_MODULES.values():
+                return getattr(v, e.attr)
             if isinstance(v, Opaque):
                 return Opaque(f'{v.desc}.{e.attr}')
             if isinstance(v, Record):
@@ -606,6 +615,8 @@ class Evaluator:
                 if d in self.intrinsics:
                     return self.intrinsics[d](*args, **kwargs)
                 recv = self.expr(f.value, env)
+                if isinstance(recv, _types.ModuleType) and recv in SAFE_MODULES.values():
+                    return getattr(recv, f.attr)(*args, **kwargs)
                 if isinstance(recv, (str, bytes, dict, list, tuple)) and f.attr in STR_METHODS:
                     r = getattr(recv, f.attr)(*args)
                     return list(r) if f.attr in ('items', 'keys', 'values') else r
